@@ -40,6 +40,9 @@ fn w_chars_count(s: &Str) -> (r: usize) ensures r == s@.len() { unimplemented!()
 // @trusted: str::lines().count() is at most chars + 1
 #[verifier::external_body]
 fn w_lines_count(s: &Str) -> (r: usize) ensures r <= s@.len() + 1 { unimplemented!() }
+// @trusted: str::matches('\n').count(): the number of line feeds (at most the length)
+#[verifier::external_body]
+fn w_newline_count(s: &Str) -> (r: usize) ensures r <= s@.len() { unimplemented!() }
 // @trusted: R9 `"<literal>".to_string()`: the length is computed from the literal by the rewriter
 #[verifier::external_body]
 fn w_lit_string(s: &str, Ghost(n): Ghost<nat>) -> (r: String) ensures r@.len() == n { s.to_string() }
